@@ -66,9 +66,9 @@ theorem GInv.fall {Ref : String → Prop} {st : St} (h : GInv Ref st) (gbi : Nat
     · exact h.bne gb' h1
     · rw [h1]; exact h.bne gb hgbmem
 
-theorem SimG.fall {sh : Shared} {Ref : String → Prop} {st : St} {vg : Vsys} (hs : SimG sh st vg) (h : GInv Ref st)
+theorem SimG.fall {sh : Shared} {Ref : String → Prop} {st : St} {vg : Vsys} (hs : SimG sh Ref st vg) (h : GInv Ref st)
     (gbi : Nat) (gb : BGrp) (hb : st.bGrp[gbi]? = some gb) :
-    SimG sh (fallSt st gbi gb.newName) vg := by
+    SimG sh Ref (fallSt st gbi gb.newName) vg := by
   have hgbmem : gb ∈ st.bGrp := List.mem_of_getElem? hb
   have bmem : ∀ gb' ∈ (fallSt st gbi gb.newName).bGrp,
       (gb' ∈ st.bGrp) ∨ (gb' = { gb with onDev := gb.newName }) := by
@@ -83,20 +83,20 @@ theorem SimG.fall {sh : Shared} {Ref : String → Prop} {st : St} {vg : Vsys} (h
     · rw [h1] at he
       simp only at he
       exact absurd (by rw [he]; exact List.mem_map_of_mem hga') (h.fresh gb hgbmem).2
-  · intro gb' hgb' m hm
+  · intro gb' hgb' hr m hm
     rcases bmem gb' hgb' with h1 | h1
-    · exact hs.mems gb' h1 m hm
-    · rw [h1] at hm; exact hs.mems gb hgbmem m hm
+    · exact hs.mems gb' h1 hr m hm
+    · rw [h1] at hm hr; exact hs.mems gb hgbmem hr m hm
 
 /-- A claim of a device group whose members on the device are (as a set) those of the target group. -/
-theorem SimG.claim {sh : Shared} {Ref : String → Prop} {st : St} {vg vg' : Vsys} (hs : SimG sh st vg) (h : GInv Ref st)
+theorem SimG.claim {sh : Shared} {Ref : String → Prop} {st : St} {vg vg' : Vsys} (hs : SimG sh Ref st vg) (h : GInv Ref st)
     (i gbi : Nat) (ga : AGrp) (gb : BGrp) (hi : st.aGrp[i]? = some ga) (hb : st.bGrp[gbi]? = some gb)
     (hnn : ga.needed = false)
     (hnames : vg'.groups.map (·.name) = vg.groups.map (·.name))
     (haddr : ∀ m, addrRefOk sh vg' m = addrRefOk sh vg m)
     (hother : ∀ n, n ≠ ga.g.name → lookupGrp vg'.groups n = lookupGrp vg.groups n)
     (hthis : ∃ ms, lookupGrp vg'.groups ga.g.name = some ms ∧ SameMem ms gb.g.members) :
-    SimG sh (claimSt st i gbi ga.g.name) vg' := by
+    SimG sh Ref (claimSt st i gbi ga.g.name) vg' := by
   have hgamem : ga ∈ st.aGrp := List.mem_of_getElem? hi
   have hgbmem : gb ∈ st.bGrp := List.mem_of_getElem? hb
   have amem : ∀ ga' ∈ (claimSt st i gbi ga.g.name).aGrp,
@@ -154,11 +154,11 @@ theorem SimG.claim {sh : Shared} {Ref : String → Prop} {st : St} {vg vg' : Vsy
     rcases amem ga' hga' with ⟨h1, _⟩ | h1
     · exact hs.anames ga' h1
     · rw [h1]; exact hs.anames ga hgamem
-  · intro gb' hgb' m hm
+  · intro gb' hgb' hr m hm
     rw [haddr]
     rcases bmem gb' hgb' with h1 | h1
-    · exact hs.mems gb' h1 m hm
-    · rw [h1] at hm; exact hs.mems gb hgbmem m hm
+    · exact hs.mems gb' h1 hr m hm
+    · rw [h1] at hm hr; exact hs.mems gb hgbmem hr m hm
 
 /-! ### Names on the device -/
 
@@ -219,9 +219,9 @@ theorem aGrp_of_idx {st : St} {x : String} {gai : Nat} (h : st.aGrpIdx x = some 
 
 /-- **One element of `adaptGroups`.** -/
 theorem adaptStep_sim {sh : Shared} {Ref : String → Prop} (st : St) (vg : Vsys) (res : List String) (adr : String)
-    (hI : GInv Ref st) (hS : SimG sh st vg) (href : (st.bGrpIdx adr).isSome → Ref adr) :
+    (hI : GInv Ref st) (hS : SimG sh Ref st vg) (href : (st.bGrpIdx adr).isSome → Ref adr) :
     ∃ st', adaptStep (res, st) adr = (res ++ [adapt1 st' adr], st') ∧ st'.out = st.out ∧ GMono st st' ∧
-      GInv Ref st' ∧ SimG sh st' vg ∧
+      GInv Ref st' ∧ SimG sh Ref st' vg ∧
       (∀ gbi, st'.bGrpIdx adr = some gbi → ∃ gb, st'.bGrp[gbi]? = some gb ∧ gb.onDev ≠ "") ∧
       (∀ gbi gb, st.bGrpIdx adr = some gbi → st.bGrp[gbi]? = some gb →
         (gb.onDev ≠ "" → adapt1 st' adr = gb.onDev) ∧
@@ -304,10 +304,10 @@ theorem adaptStep_sim {sh : Shared} {Ref : String → Prop} (st : St) (vg : Vsys
 
 /-- **`adaptGroups`**: no request; every group of the list gets its name on the device. -/
 theorem adaptGroups_sim {sh : Shared} {Ref : String → Prop} (vg : Vsys) :
-    ∀ (l : List String) (res : List String) (st : St), GInv Ref st → SimG sh st vg →
+    ∀ (l : List String) (res : List String) (st : St), GInv Ref st → SimG sh Ref st vg →
       (∀ x ∈ l, (st.bGrpIdx x).isSome → Ref x) →
       ∃ st', l.foldl adaptStep (res, st) = (res ++ adaptL st' l, st') ∧ st'.out = st.out ∧ GMono st st' ∧
-        GInv Ref st' ∧ SimG sh st' vg ∧ GSettled st' l := by
+        GInv Ref st' ∧ SimG sh Ref st' vg ∧ GSettled st' l := by
   intro l
   induction l with
   | nil =>
@@ -333,9 +333,9 @@ theorem adaptGroups_sim {sh : Shared} {Ref : String → Prop} (vg : Vsys) :
       · exact set2 y hy
 
 theorem adaptGroups_sim' {sh : Shared} {Ref : String → Prop} (vg : Vsys) (st : St) (l : List String)
-    (hI : GInv Ref st) (hS : SimG sh st vg) (href : ∀ x ∈ l, (st.bGrpIdx x).isSome → Ref x) :
+    (hI : GInv Ref st) (hS : SimG sh Ref st vg) (href : ∀ x ∈ l, (st.bGrpIdx x).isSome → Ref x) :
     ∃ st', adaptGroups st l = (adaptL st' l, st') ∧ st'.out = st.out ∧ GMono st st' ∧
-      GInv Ref st' ∧ SimG sh st' vg ∧ GSettled st' l := by
+      GInv Ref st' ∧ SimG sh Ref st' vg ∧ GSettled st' l := by
   obtain ⟨st', e, r⟩ := adaptGroups_sim (sh := sh) vg l [] st hI hS href
   exact ⟨st', by unfold adaptGroups; rw [e]; simp, r⟩
 
